@@ -168,6 +168,8 @@ class Prop(BaseProp):
                     ["-p", "P", "-s", scfg, "-e", "top.cmake"], ["-p", "x(y)"], ["-p", "$dollar"], ["-e", "*.md", "-p", "a b c"],
                     ["-e", "sub/"], ["-e", "a*/", "-p", "x/"], ["-p", "back\\slash"], ["-e", "e*/", "-e", "zz/"], ["-p", "trailing "]]
             extra = pool[(idx // 11 + rng.randrange(3)) % len(pool)]
+            if "logging" in scfg_data:
+                extra = list(pool[3] if idx // 11 % 8 == 2 else pool[6])      # (such a file has to be handed over to matter)
             run_cwd = os.path.join(sb, "started_here")       # cmake (and the direct command line) run from here,
             os.makedirs(run_cwd)                              # the driver script lives one level up
             # (output names may carry characters that mean something to CMake's path functions: ':' is a list separator
